@@ -176,6 +176,9 @@ def trace_validate(binpath, machine, module, cfg, seed, n, timeout=900, rec_args
         if r is None and os.path.exists(intent) and time.time() - os.path.getmtime(intent) < max(120, timeout / 5):
             # the recorder was still making progress (the intent log moved recently): the budget was too small, not a hang
             raise ToolError("recording %s did not finish within %ds (still progressing: enlarge the timeout or shrink the program)" % (j.name, timeout))
+        if r is not None and r.returncode != 0 and not (os.path.exists(intent) and open(intent).read().strip()):
+            # the recorder died before it announced its first event: it could not be started for this configuration
+            raise ToolError("recorder for %s could not start (rc=%d): %s" % (j.name, r.returncode, (r.stderr or "")[-400:]))
         if r is None or r.returncode != 0:
             last = open(intent).read() if os.path.exists(intent) else ""
             j.mismatches.append({"kind": "trace", "machine": machine, "cfg": cfg, "seed": seed, "n": n, "rec_args": list(rec_args),
